@@ -45,6 +45,41 @@ def fn_type_parts(fpty):
 ID = r'(?:%[-\w.$]+|%"[^"]+")'
 GID = r'(?:@[-\w.$]+|@"[^"]+")'
 
+def split_load(d1):
+    """'load T, T* %p[, align N][, !md]' -> (T, %p); T may contain commas (function types), so split by length, not by regex"""
+    if not d1.startswith('load '): return None
+    m = re.search(r'\* (' + ID + r')(?:, align \d+)?(?:, !.*)?$', d1)
+    if not m: return None
+    pre = d1[5:m.start()]
+    if (len(pre) - 2) % 2: return None
+    h = (len(pre) - 2) // 2
+    if pre[:h] != pre[h + 2:] or pre[h:h + 2] != ', ': return None
+    return pre[:h], m.group(1)
+
+def find_cands(defs, callee, vtabs, defined, filt):
+    d1 = defs.get(callee, '')
+    cands = []; fpty = None
+    m1 = split_load(d1)
+    if m1:
+        fpty, vfn = m1
+        d2 = defs.get(vfn, '')
+        m2 = re.match(r'getelementptr inbounds (.+), (.+)\* (' + ID + r'), i64 (\d+)$', d2)
+        if m2:
+            k = int(m2.group(4)); vt = m2.group(3)
+            d3 = defs.get(vt, '')
+            if re.match(r'load ', d3) and fn_type_parts(fpty):
+                ret, params = fn_type_parts(fpty)
+                seen = set()
+                for vname, ents in vtabs:
+                    if 2 + k >= len(ents) or ents[2 + k] is None: continue
+                    cty, cn = ents[2 + k]
+                    if cn in seen or cn not in defined: continue
+                    cp = fn_type_parts(cty)
+                    if not cp or cp[0] != ret or len(cp[1]) != len(params): continue
+                    if filt and not any(f in cn for f in filt): continue
+                    seen.add(cn); cands.append((cty, cn))
+    return cands, fpty
+
 def main():
     src, dst = sys.argv[1], sys.argv[2]
     filt = sys.argv[3:]
@@ -84,7 +119,9 @@ def main():
         res = [fn[0]]
         cur_label = None; orig_label = None; rename = {}
         first_block = True
-        for x in fn[1:]:
+        skip_next = False
+        for idx, x in enumerate(fn):
+            if idx == 0: continue
             lm = re.match(r'([-\w.$]+|"[^"]+"):', x)
             if lm:
                 cur_label = orig_label = '%' + lm.group(1)
@@ -93,15 +130,59 @@ def main():
                 # entry block of a function whose blocks are unnamed: its implicit label is the next number; find lazily
                 pass
             y = re.sub(r' dereferenceable(?:_or_null)?\(\d+\)', '', x)
+            if skip_next:
+                skip_next = False; continue
+            im = re.match(r'\s*(?:(' + ID + r') = )?invoke ([^()@]*?)(' + ID + r')\((.*)\)([^()]*)$', y)
+            if im and ' asm ' not in y and idx + 1 < len(fn) and re.match(r'\s+to label ', fn[idx + 1]):
+                # virtual call in a try region / with pending cleanups (coordinator's extension): same dispatch, each candidate an invoke
+                dest, retstuff, callee, args, trail = im.groups()
+                lm2 = re.match(r'\s+to label (' + ID + r') unwind label (' + ID + r')', fn[idx + 1])
+                cands, fpty = find_cands(defs, callee, vtabs, defined, filt)
+                lp_has_phi = False
+                if lm2:
+                    lpname = lm2.group(2)[1:]
+                    for q, z in enumerate(fn):
+                        if re.match(re.escape(lpname) + r':', z) and q + 1 < len(fn) and ' = phi ' in fn[q + 1]: lp_has_phi = True
+                if not cands or not lm2 or lp_has_phi or cur_label is None:
+                    nleft += 1; res.append(x); continue
+                okl, lpl = lm2.group(1), lm2.group(2)
+                om = re.match(r'(\s*)(?:(' + ID + r') = )?(invoke .*?)' + re.escape(callee) + r'(\(.*)$', x)
+                ind, _, callhead, calltail = om.groups()
+                rettype = re.sub(r'\b(noundef|zeroext|signext|nonnull|noalias|align \d+)\b', '', retstuff).strip()
+                rettype = re.sub(r'\s+', ' ', rettype)
+                uid += 1; npromoted += 1; inc = []
+                for ci, (cty, cn) in enumerate(cands):
+                    t = 'dv%d.t%d' % (uid, ci); e = 'dv%d.e%d' % (uid, ci); k = 'dv%d.k%d' % (uid, ci)
+                    cast = 'bitcast (%s %s to %s)' % (cty, cn, fpty) if cty != fpty else cn
+                    res.append('%s%%dv%d.c%d = icmp eq %s %s, %s' % (ind, uid, ci, fpty, callee, cast))
+                    res.append('%sbr i1 %%dv%d.c%d, label %%%s, label %%%s' % (ind, uid, ci, t, e))
+                    res.append('%s:' % t)
+                    if dest:
+                        res.append('%s%%dv%d.r%d = %s%s%s' % (ind, uid, ci, callhead, cast, calltail)); inc.append('[ %%dv%d.r%d, %%%s ]' % (uid, ci, k))
+                    else:
+                        res.append('%s%s%s%s' % (ind, callhead, cast, calltail))
+                    res.append('%s        to label %%%s unwind label %s' % (ind, k, lpl))
+                    res.append('%s:' % k)
+                    res.append('%sbr label %%dv%d.cont' % (ind, uid))
+                    res.append('%s:' % e)
+                res.append('%scall void @llvm.trap()' % ind); need_trap = True
+                res.append('%sunreachable' % ind)
+                res.append('dv%d.cont:' % uid)
+                if dest:
+                    res.append('%s%s = phi %s %s' % (ind, dest, rettype, ', '.join(inc)))
+                res.append('%sbr label %s' % (ind, okl))
+                rename[orig_label] = '%%dv%d.cont' % uid
+                cur_label = None; skip_next = True
+                continue
             cm = re.match(r'\s*(?:(' + ID + r') = )?(?:tail |notail |musttail )?call ([^()@]*?)(' + ID + r')\((.*)\)([^()]*)$', y)
             if not cm or ' asm ' in y:
                 res.append(x); continue
             dest, retstuff, callee, args, trail = cm.groups()
             d1 = defs.get(callee, '')
-            m1 = re.match(r'load (.+), (.+)\* (' + ID + r')(?:, align \d+)?(?:, !.*)?$', d1)
+            m1 = split_load(d1)
             cands = []
-            if m1 and m1.group(2) == m1.group(1):
-                fpty = m1.group(1); vfn = m1.group(3)
+            if m1:
+                fpty, vfn = m1
                 d2 = defs.get(vfn, '')
                 m2 = re.match(r'getelementptr inbounds (.+), (.+)\* (' + ID + r'), i64 (\d+)$', d2)
                 if m2:
